@@ -166,3 +166,17 @@ _m("C20",
    "cover (e.g. ssri on malformed integrity values found on disk); stack or heap exhaustion; allocation failure.",
    "MIR panic-site enumeration + per-site discharge rules (dominance, symbolic terms, dependency closure)",
    "exhaustive static enumeration of explicit panic sites with proof obligations; says nothing about non-termination")
+
+_m("C13",
+   "Error discipline over every fallible call of every configuration. (R1) Every call whose result type carries an I/O-level "
+   "error (io::Error, crate Error, PersistError, JoinError, walkdir::Error, channel cancellation) and that is a source rather "
+   "than a forwarder must have its result flow — through `?`, with_context/map/map_err, awaits, aggregates — to a propagation "
+   "point of its function (a return value, a value sent on the result channel, a stored Operation result); the closure is cut at "
+   "error-discarding combinators (ok / is_ok / unwrap_or* / err). A result that does not reach a propagation point must match the "
+   "committed tolerated table (3 entries, each keyed by owner function, callee and discard kind, with its reason). (R2) No "
+   "unwrap/expect directly on the result of a fallible filesystem call unless the same result was checked before. (R3) No "
+   "flatten / filter_map(Result::ok) / map_while(Result::ok) over an iterator of io::Result (ReadDir, Lines, walkdir).",
+   "Which errno each call can produce, hangs, retry behaviour, 'the same call succeeds once the fault is gone', and the state of "
+   "the cache after each injected fault (its structural parts are decided under C03 / C04 / C14).",
+   "error-flow closure (backward may-depend value flow cut at discarding combinators) + tolerated-discard table + adaptor table",
+   "exhaustive static analysis of error propagation for every fallible call site (necessary condition of truthful results)")
